@@ -87,6 +87,8 @@ def run(ctx):
                       "labelled object is listed under exactly its label, an unlabelled one under its name", floor=1)
     ctx.rule("R18.w", "the read side of the list view is list's own: ListProxy does not override __contains__ / __iter__ / __len__ / index / count -- validation (`val not in self.objects`) "
                       "and get_range() read the objects through them", floor=1)
+    ctx.rule("R18.p", "selector model, re-declaration: the `objects` setter given Undefined (a Selector re-declared in a subclass without objects) leaves the labels to be inherited together with "
+                      "the objects -- it does not store names = {} next to objects that stay inherited", floor=1)
     ctx.rule("R18.a", "in every listed mutator each mutation of the proxy list has, in the same block, the same mutation of _objects with identical arguments (and vice versa); update only delegates", floor=8)
     ctx.rule("R18.b", "ListProxy.pop returns, on every path, a value obtained from a .pop(...) on one of the stores", floor=2)
     ctx.rule("R18.c", "where a mutator rebuilds names after removing an object, the filter keeps the entries NOT identical to it (pop and remove agree)", floor=2)
@@ -436,6 +438,7 @@ def _rule_g(ctx):
     selector_model.report_compute_default(ctx, "R18.s")
     selector_model.report_objects_setter(ctx, "R18.o")
     selector_model.report_named_objs(ctx, "R18.n")
+    selector_model.redeclaration_model(ctx, "R18.p")
     # R18.w: the read side of the list view is list's own
     lp = ctx.repo.classes["param.parameters.ListProxy"]
     reads = ("__contains__", "__iter__", "__len__", "index", "count", "__reversed__")
